@@ -96,7 +96,10 @@ static void ohex(const uint8_t *p, size_t n) {
 static volatile long cur_case = -1;
 static volatile long cur_cmd = -1;
 
-static void crash_record(const char *what, unsigned long addr) {
+/* The handlers run while the interrupted code may be anywhere - also inside a sanitizer report that holds the report lock.
+ * They are therefore not instrumented (no fake-stack allocation, no checks that could fault and re-enter the runtime). */
+#define NOSAN __attribute__((no_sanitize_address, no_sanitize_undefined, noinline))
+NOSAN static void crash_record(const char *what, unsigned long addr) {
   char tmp[160];
   int n = snprintf(tmp, sizeof tmp, "X %ld %ld %s 0x%lx\n", cur_case, cur_cmd,
                    what, addr);
@@ -108,7 +111,7 @@ static void crash_record(const char *what, unsigned long addr) {
 struct inst;
 static const char *classify(unsigned long addr, long *rel);
 
-static void on_signal(int sig, siginfo_t *si, void *ctx) {
+NOSAN static void on_signal(int sig, siginfo_t *si, void *ctx) {
   (void)ctx;
   char what[96];
   long rel = 0;
@@ -120,7 +123,7 @@ static void on_signal(int sig, siginfo_t *si, void *ctx) {
   crash_record(what, (unsigned long)si->si_addr);
   _exit(99);
 }
-static void on_alarm(int sig) {
+NOSAN static void on_alarm(int sig) {
   (void)sig;
   crash_record("hang", 0);
   _exit(98);
